@@ -226,8 +226,8 @@ impl Check for C14 {
     }
     fn count(&self, tier: Tier) -> u64 {
         match tier {
-            Tier::Quick => 8_000,
-            Tier::Thorough => 400_000,
+            Tier::Quick => 60_000,
+            Tier::Thorough => 3_000_000,
         }
     }
     fn generate(&self, rng: &mut Rng, _index: u64, _tier: Tier) -> C14Sc {
